@@ -204,16 +204,16 @@ theorem storeNPrimes_correct (e : Env) (he : GenSpec e) (vmax n start nthHint Q 
 /-! ### the first `n` primes: `p 1 … p n` -/
 
 /-- the list `[p 1, …, p n]` -/
-noncomputable def firstPrimes (n : ℕ) : List ℕ := (List.range n).map (fun i => Spec.p (i + 1))
+noncomputable def firstNPrimes (n : ℕ) : List ℕ := (List.range n).map (fun i => Spec.p (i + 1))
 
-theorem firstPrimes_length (n : ℕ) : (firstPrimes n).length = n := by simp [firstPrimes]
+theorem firstNPrimes_length (n : ℕ) : (firstNPrimes n).length = n := by simp [firstNPrimes]
 
-theorem firstPrimes_primesIn (n : ℕ) (hn : 1 ≤ n) : PrimesIn (firstPrimes n) 0 (Spec.p n) := by
+theorem firstNPrimes_primesIn (n : ℕ) (hn : 1 ≤ n) : PrimesIn (firstNPrimes n) 0 (Spec.p n) := by
   refine ⟨?_, fun q => ?_⟩
-  · unfold firstPrimes
+  · unfold firstNPrimes
     rw [List.pairwise_map]
     exact List.Pairwise.imp_of_mem (fun {a b} _ _ hab => Spec.p_lt_p (by omega) (by omega)) List.pairwise_lt_range
-  · unfold firstPrimes
+  · unfold firstNPrimes
     rw [List.mem_map]
     constructor
     · rintro ⟨i, hi, rfl⟩
@@ -227,30 +227,30 @@ theorem firstPrimes_primesIn (n : ℕ) (hn : 1 ≤ n) : PrimesIn (firstPrimes n)
       rw [show Nat.primeCounting q - 1 + 1 = Nat.primeCounting q by omega]
       exact Spec.p_pi_of_prime h1
 
-theorem firstPrimes_take (n k : ℕ) (hk : k ≤ n) : (firstPrimes n).take k = firstPrimes k := by
-  unfold firstPrimes
+theorem firstNPrimes_take (n k : ℕ) (hk : k ≤ n) : (firstNPrimes n).take k = firstNPrimes k := by
+  unfold firstNPrimes
   rw [← List.map_take, List.take_range, Nat.min_eq_left hk]
 
 /-- **`store_n_primes(n, 0, primes)`** returns `[p 1, …, p n]` whenever `p n` fits `uint64_t` and the element type -/
 theorem storeNPrimes_zero_correct (e : Env) (he : GenSpec e) (vmax n nthHint : ℕ) (hu : Spec.p n ≤ umax) (hv : Spec.p n ≤ vmax) :
-    storeNPrimes e vmax n 0 nthHint = .ok (firstPrimes n) := by
+    storeNPrimes e vmax n 0 nthHint = .ok (firstNPrimes n) := by
   by_cases hn : n = 0
   · subst hn; rfl
-  · have := storeNPrimes_correct e he vmax n 0 nthHint (Spec.p n) (firstPrimes n) (firstPrimes_primesIn n (by omega)) hu
-      (Nat.zero_le _) (by rw [firstPrimes_length]) (fun x hx => by
-        have := ((firstPrimes_primesIn n (by omega)).2 x).1 (List.mem_of_mem_take hx)
+  · have := storeNPrimes_correct e he vmax n 0 nthHint (Spec.p n) (firstNPrimes n) (firstNPrimes_primesIn n (by omega)) hu
+      (Nat.zero_le _) (by rw [firstNPrimes_length]) (fun x hx => by
+        have := ((firstNPrimes_primesIn n (by omega)).2 x).1 (List.mem_of_mem_take hx)
         omega)
-    rw [this, firstPrimes_take n n (le_refl _)]
+    rw [this, firstNPrimes_take n n (le_refl _)]
 
 /-- **`generate_n_primes<T>(a)`** (1-indexed, `primes[0] = 0`): the shape `CallOK.prime0 / prime` of phi.cpp needs -/
 theorem pcGenerateNPrimes_correct (e : Env) (he : GenSpec e) (vmax a nthHint : ℕ) (hu : Spec.p a ≤ umax) (hv : Spec.p a ≤ vmax) :
-    ∃ l, pcGenerateNPrimes e vmax a nthHint = .ok l ∧ l = 0 :: firstPrimes a ∧ l.length = a + 1 ∧ l.getD 0 0 = 0 ∧
+    ∃ l, pcGenerateNPrimes e vmax a nthHint = .ok l ∧ l = 0 :: firstNPrimes a ∧ l.length = a + 1 ∧ l.getD 0 0 = 0 ∧
       ∀ i, 1 ≤ i → i ≤ a → l.getD i 0 = Spec.p i := by
-  refine ⟨0 :: firstPrimes a, ?_, rfl, by simp [firstPrimes_length], rfl, fun i hi hia => ?_⟩
+  refine ⟨0 :: firstNPrimes a, ?_, rfl, by simp [firstNPrimes_length], rfl, fun i hi hia => ?_⟩
   · unfold pcGenerateNPrimes
     rw [storeNPrimes_zero_correct e he vmax a nthHint hu hv]
   · obtain ⟨j, rfl⟩ : ∃ j, i = j + 1 := ⟨i - 1, by omega⟩
-    unfold firstPrimes
+    unfold firstNPrimes
     simp [List.getD, show j < a by omega]
 
 end Pc.It
